@@ -2,6 +2,8 @@
 package c04
 
 import (
+	"github.com/TheManticoreProject/Manticore/network/smb/smb_v10/message/commands/andx"
+	"github.com/TheManticoreProject/Manticore/network/smb/smb_v10/message/commands/codes"
 	"bytes"
 	"encoding/json"
 	"fmt"
@@ -281,34 +283,26 @@ type orderCase struct {
 }
 
 func checkOrder(c orderCase) []vf.Finding {
-	cmd, _, err := build(c.Base)
-	if err != nil {
-		return []vf.Finding{vf.F("harness", "bad-case", "%v", err)}
+	e, ok := smbgen.ByName(c.Base.Struct)
+	if !ok {
+		return []vf.Finding{vf.F("harness", "bad-case", "unknown structure %s", c.Base.Struct)}
 	}
-	type fs struct {
-		name string
-		slotInfo
-	}
-	var slots []fs
-	for _, f := range smbgen.OwnFields(cmd) {
-		if smbgen.FixedWidth(f.Type) == 0 || smbgen.IsCountField(c.Base.Struct, f.Name) {
-			continue
-		}
-		info, _, _, problems := analyzeSlot(slotCase{c.Base, f.Name, nil})
-		if len(problems) > 0 {
-			continue // reported by slot-locality
-		}
-		slots = append(slots, fs{f.Name, info})
-	}
+	// fields whose slot is not well defined are left out here: slot-locality reports them
+	slots, paramEnd := smbgen.Layout(e, c.Base.Fields)
 	var out []vf.Finding
 	for i := 1; i < len(slots); i++ {
 		a, b := slots[i-1], slots[i]
-		if b.start < a.start+a.width {
+		if b.Start < a.Start+a.Width {
 			kind := "slots-out-of-declared-order"
-			if b.start+b.width > a.start && b.start < a.start+a.width {
+			if b.Start+b.Width > a.Start && b.Start < a.Start+a.Width {
 				kind = "slots-overlap"
 			}
-			out = append(out, vf.F(c.Base.Struct+"."+b.name, kind, "%s at [%d,+%d) declared after %s at [%d,+%d)", b.name, b.start, b.width, a.name, a.start, a.width))
+			out = append(out, vf.F(c.Base.Struct+"."+b.Name, kind, "%s at [%d,+%d) declared after %s at [%d,+%d)", b.Name, b.Start, b.Width, a.Name, a.Start, a.Width))
+			continue
+		}
+		// adjacent in the declaration and in the same block: no byte between them belongs to nobody
+		if b.Chain && smbgen.SameBlock(a.Start, b.Start, paramEnd) && b.Start != a.Start+a.Width+b.Between {
+			out = append(out, vf.F(c.Base.Struct+"."+b.Name, "unowned-bytes-between-adjacent-slots", "%s ends at %d, %d bytes of count fields follow, %s starts at %d", a.Name, a.Start+a.Width, b.Between, b.Name, b.Start))
 		}
 	}
 	return out
@@ -428,4 +422,102 @@ func TestOffsetsAndPadsPerSpec(t *testing.T) {
 		c := genCase(t, tg.name, smbgen.Options{MaxBytes: 12})
 		return offsetCase{c, tg.field, uint32(rapid.IntRange(33, 4000).Draw(t, "offset"))}
 	}, checkOffsets, func(c offsetCase) bool { return true })
+}
+
+// ---- the AndX block is part of every AndX structure's wire form --------------------------------------------
+//
+// "AndX words first": the three AndX fields (command, reserved, offset) are carried by the structure
+// through GetAndX/SetAndX, not as own fields, so the generic round trip above never sees them. Here
+// they are given generated values, must come back from a fresh structure, and each must own exactly
+// its bytes of the encoding (command: 1, reserved: 1, offset: 2, in that order after the word count).
+
+type andxCase struct {
+	Base     cmdCase `json:"base"`
+	Command  uint8   `json:"andx_command"`
+	Reserved uint8   `json:"andx_reserved"`
+	Offset   uint16  `json:"andx_offset"`
+}
+
+func encodeWithAndX(c andxCase, cmdv, res uint8, off uint16) ([]byte, smbgen.Entry, error) {
+	cmd, e, err := build(c.Base)
+	if err != nil {
+		return nil, e, err
+	}
+	cmd.SetAndX(&andx.AndX{AndXCommand: codes.CommandCode(cmdv), AndXReserved: res, AndXOffset: off})
+	enc, err := safeMarshal(cmd)
+	return enc, e, err
+}
+
+func checkAndXRoundtrip(c andxCase) []vf.Finding {
+	enc, e, err := encodeWithAndX(c, c.Command, c.Reserved, c.Offset)
+	if err != nil {
+		return []vf.Finding{vf.F(c.Base.Struct, "marshal-error:"+normErr(err), "%v", err)}
+	}
+	dec := smbgen.New(e)
+	if err := safeUnmarshal(dec, append([]byte{}, enc...)); err != nil {
+		return []vf.Finding{vf.F(c.Base.Struct, "decode-error:"+normErr(err), "own encoding (%d bytes) rejected: %v", len(enc), err)}
+	}
+	var fs []vf.Finding
+	a := dec.GetAndX()
+	if a == nil {
+		return []vf.Finding{vf.F(c.Base.Struct+".AndX", "field-not-preserved", "decoded structure has no AndX block")}
+	}
+	if uint8(a.AndXCommand) != c.Command {
+		fs = append(fs, vf.F(c.Base.Struct+".AndX.AndXCommand", "field-not-preserved", "decoded %#x, encoded %#x", uint8(a.AndXCommand), c.Command))
+	}
+	if a.AndXReserved != c.Reserved {
+		fs = append(fs, vf.F(c.Base.Struct+".AndX.AndXReserved", "field-not-preserved", "decoded %#x, encoded %#x", a.AndXReserved, c.Reserved))
+	}
+	if a.AndXOffset != c.Offset {
+		fs = append(fs, vf.F(c.Base.Struct+".AndX.AndXOffset", "field-not-preserved", "decoded %#x, encoded %#x", a.AndXOffset, c.Offset))
+	}
+	// slot locality by marking: complement one AndX field, diff the encodings
+	for _, m := range []struct {
+		name       string
+		cmd, res   uint8
+		off        uint16
+		start, end int
+	}{
+		{"AndXCommand", ^c.Command, c.Reserved, c.Offset, 1, 2},
+		{"AndXReserved", c.Command, ^c.Reserved, c.Offset, 2, 3},
+		{"AndXOffset", c.Command, c.Reserved, ^c.Offset, 3, 5},
+	} {
+		enc2, _, err := encodeWithAndX(c, m.cmd, m.res, m.off)
+		if err != nil || len(enc2) != len(enc) {
+			fs = append(fs, vf.F(c.Base.Struct+".AndX."+m.name, "fixed-width-field-changes-message-length", "err %v, %d vs %d bytes", err, len(enc2), len(enc)))
+			continue
+		}
+		var diff []int
+		for i := range enc {
+			if enc[i] != enc2[i] {
+				diff = append(diff, i)
+			}
+		}
+		if len(diff) != m.end-m.start || diff[0] != m.start || diff[len(diff)-1] != m.end-1 {
+			kind := "bytes-outside-own-slot-change"
+			if len(diff) == 0 {
+				kind = "field-not-emitted"
+			}
+			fs = append(fs, vf.F(c.Base.Struct+".AndX."+m.name, kind, "complementing the field changes bytes %v, its slot is [%d,%d)", diff, m.start, m.end))
+		}
+	}
+	return fs
+}
+
+func TestAndXRoundtrip(t *testing.T) {
+	s := vf.Begin(t, P, "andx-roundtrip")
+	var names []string
+	for _, e := range smbgen.Inventory() {
+		if e.AndX {
+			names = append(names, e.Name)
+		}
+	}
+	s.Note("%d AndX structures", len(names))
+	per := vf.N(40, 600)
+	idx := 0
+	vf.Rapid(s, len(names)*per, func(t *rapid.T) andxCase {
+		name := names[(idx/per)%len(names)]
+		idx++
+		return andxCase{genCase(t, name, smbgen.Options{MaxBytes: 16}), rapid.Byte().Draw(t, "andxCommand"), rapid.Byte().Draw(t, "andxReserved"), rapid.Uint16().Draw(t, "andxOffset")}
+	}, checkAndXRoundtrip, func(c andxCase) bool { return c.Reserved != 0 && c.Offset != 0 })
 }
